@@ -60,6 +60,8 @@ type Term struct {
 	Op   string // operator or atom text
 	Args []*Term
 	Sort Sort
+	Vars []*Term   // quantifiers: bound variables
+	Pats [][]*Term // quantifiers: patterns
 	str  string
 	// for literal ints
 	isLit bool
@@ -332,6 +334,22 @@ func Forall(vars []*Term, body *Term, patterns ...[]*Term) *Term {
 	if len(vars) == 0 {
 		return body
 	}
+	if len(patterns) == 0 {
+		if body.Op == "and" && len(body.Args) > 1 {
+			var cs []*Term
+			for _, b := range body.Args {
+				cs = append(cs, Forall(vars, b))
+			}
+			return And(cs...)
+		}
+		if body.Op == "=>" && len(body.Args) == 2 && body.Args[1].Op == "and" && len(body.Args[1].Args) > 1 {
+			var cs []*Term
+			for _, b := range body.Args[1].Args {
+				cs = append(cs, Forall(vars, Imp(body.Args[0], b)))
+			}
+			return And(cs...)
+		}
+	}
 	var sb strings.Builder
 	sb.WriteString("(forall (")
 	for _, v := range vars {
@@ -356,7 +374,7 @@ func Forall(vars []*Term, body *Term, patterns ...[]*Term) *Term {
 		sb.WriteString(body.String())
 	}
 	sb.WriteString(")")
-	t := &Term{Op: "forall", Args: []*Term{body}, Sort: SBool}
+	t := &Term{Op: "forall", Args: []*Term{body}, Sort: SBool, Vars: vars, Pats: patterns}
 	t.str = sb.String()
 	return t
 }
@@ -373,7 +391,7 @@ func Exists(vars []*Term, body *Term) *Term {
 	sb.WriteString(") ")
 	sb.WriteString(body.String())
 	sb.WriteString(")")
-	t := &Term{Op: "exists", Args: []*Term{body}, Sort: SBool}
+	t := &Term{Op: "exists", Args: []*Term{body}, Sort: SBool, Vars: vars}
 	t.str = sb.String()
 	return t
 }
